@@ -100,7 +100,7 @@ CHECKS = {
              "(invariant by induction over the fold), so for every table and declaration order a success runs the method declared success (with gas, events, message "
              "responses; data per C09) else the always method with the full result, a failure the error/always method, uncovered outcomes are passed through, unknown ids "
              "are errors. Tie: sv::dispatch_reply of compiled generated contracts with echo handlers on crafted replies, model vs real vs an independent python statement; "
-             "source forms of the table construction recognised on every run. ReplyOn::excludes and ReplyCtx's From<tuple> conversion are regenerated from the source on every run and proved equal to what the model assumes (ReplyOnFn.excludes_eq, CtxFn.reply_from).",
+             "source forms of the table construction recognised on every run. ReplyOn::excludes, ReplyCtx's From<tuple> conversion and ReplyData::{new, merge} are regenerated from the source on every run and proved equal to what the model assumes (ReplyOnFn.excludes_eq, CtxFn.reply_from, ReplyNewFn.new_spec, merge_spec).",
         design="§8 C07",
         technique="Lean 4 proof (fold invariant + position-independent lookup) + L2 differential on dispatch_reply",
         note=TB + " Reply handlers must return the contract's own error type (the generated dispatcher performs no conversion)."),
@@ -141,7 +141,7 @@ CHECKS = {
              "restrictions, every attribute-argument vocabulary via the regenerated tables, entry-point concrete types) that a program breaking it is rejected whatever the "
              "rest looks like; for the reply table: diagnostics are monotone over the fold, an excluding outcome under an existing name is rejected, shape errors of a method "
              "opening an entry are kept. Tie: clean/dirty of the real expansion for valid programs, ~30 kinds of one-edit-invalid programs and every small reply table "
-             "(model vs real vs a declarative statement of the rule), plus a rustc batch checking that the build fails with an error inside the annotated item.",
+             "(model vs real vs a declarative statement of the rule), plus a rustc batch checking that the build fails with an error inside the annotated item. The reply-related rules are additionally proved about code regenerated from reply.rs on every run: as_data_field, assert_no_redundant_params, as_variant_handlers_pair, ReplyData::new and ReplyData::merge as Lean definitions with their diagnostics (ReplyParamFn.*, ReplyNewFn.new_spec, merge_spec).",
         design="§8 C18",
         technique="Lean 4 proof over regenerated vocabularies + exhaustive/differential L1 status stream + rustc batch",
         note=TB + " Diagnostic texts are not compared; span accuracy only on the rustc batch."),
